@@ -21,8 +21,7 @@ ASSUMPTIONS = [
   "interpreter's visible text at the interval's begin, as lines (vt/cuecheck.py); output parsed by the strict parsers of vt/cueparse.py",
   "paragraphs containing xml:space=preserve text are compared by their non-white-space characters only (labelled class)",
   "ruby annotation (rt, rtc) and delimiter (rp) text is excluded, ruby base text included, as the statement says",
-  "cues and payload lines that hold no visible character (only tags, e.g. a styled span around a lone line break) are ignored on the "
-  "output side: they carry no text",
+  "cues and payload lines that hold no visible character (only tags and/or white space) are ignored on both sides: they carry no text",
   "intervals shorter than the millisecond resolution are not generated here (C07 / C18 cover 'does not fail')",
 ]
 
